@@ -1,7 +1,8 @@
 """Check configuration for C02 (loaded by bin/props.py)."""
-from props_common import STD_ASSUME
+from props_common import STD_ASSUME, KNOBS_ENGINES, KNOBS_ASSUME
 
 CFG = {
+    "knobs": KNOBS_ENGINES,
     "pkg": "banyand/internal/verif/props/c02",
     "level": "exploration",
     "level_text": ("seeded exploration of measure write histories full of (series, timestamp) collisions with explicit, tied and defaulted versions, arriving in any order over one or many batches "
@@ -16,5 +17,5 @@ CFG = {
         "real": ["banyand/liaison/grpc measure Write+Query services", "banyand/measure (write path, dedup in mem parts, merger, query heap)", "banyand/internal/storage", "banyand/query + pkg/query"],
         "stub": ["metadata registry (simmeta)", "gRPC transport (in-memory server streams)", "clock (testing/synctest)"],
     },
-    "assumptions": STD_ASSUME + ["when the maximal version is tied any of the tied rows is accepted (as the property states)"],
+    "assumptions": STD_ASSUME + [KNOBS_ASSUME, "when the maximal version is tied any of the tied rows is accepted (as the property states)"],
 }
